@@ -71,12 +71,24 @@ class Sym:
     def __bool__(s):
         raise TypeError("truth value of a symbolic expression requested")
 
+    def __lt__(s, o):
+        # the only comparison the constructors make on a parameter is the rejection guard `x < 0`
+        # (negative times); the symbolic run is the accepted branch, and the assumption is recorded.
+        # The guard itself is the business of C20 (guard table), not of the formulas.
+        if isinstance(o, (int, float)) and not isinstance(o, bool) and o == 0:
+            ASSUMED.add(f"not ({s!r} < 0)")
+            return False
+        raise TypeError(f"comparison of a symbolic expression with {o!r}")
+
     def __repr__(s):
         if s.op == "const":
             return repr(s.args[0])
         if s.op == "var":
             return s.args[0]
         return f"{s.op}({', '.join(map(repr, s.args))})"
+
+
+ASSUMED = set()  # sign assumptions under which the symbolic run took the accepted branch of a guard
 
 
 def var(name):
